@@ -1147,6 +1147,17 @@ def call_builtin(interp, name, args, kwargs):
                     return args[2]
                 raise
         raise Unmodelled('getattr with non-constant name')
+    if name == 'setattr' and len(args) == 3:
+        if not (isinstance(args[1], Const) and isinstance(args[1].value, str)):
+            raise Unmodelled('setattr with a non-constant name')
+        tgt = args[0]
+        if isinstance(tgt, (Obj, Func)):
+            tgt.attrs[args[1].value] = args[2]
+        elif isinstance(tgt, ClassV) and tgt.module is not None:
+            interp.class_dynamic(tgt, run=False)[args[1].value] = args[2]
+        else:
+            raise Unmodelled('setattr on %r' % (tgt,))
+        return Const(None)
     if name == 'hasattr':
         if isinstance(args[1], Const):
             try:
